@@ -19,7 +19,8 @@ import traceback
 from pathlib import Path
 from typing import Any, Callable, Iterable, Optional
 
-VERIF = Path("/verif")
+# the development this file belongs to: /verif when run as registered, a snapshot when run through `vp run`
+VERIF = Path(__file__).resolve().parent.parent
 REPO = Path(os.environ.get("VERIF_REPO", "/repo"))
 SRC = REPO / "src"
 PKG = SRC / "richchk"
@@ -406,7 +407,7 @@ class Check:
 
     def build(self, targets: list[str], timeout=1500) -> bool:
         ok, out = coq_make(targets, timeout=timeout)
-        self.checker_cmds.append(f"cd /verif/coq && make -j{NCPU} " + " ".join(targets))
+        self.checker_cmds.append(f"cd {COQ} && make -j{NCPU} " + " ".join(targets))
         if not ok:
             self.oblige("coq-build:" + ",".join(targets), False, out)
             self.build_log = out
@@ -427,7 +428,7 @@ class Check:
             if not okd:
                 self.oblige("coq-build:" + ",".join(deps), False, outd)
         ok, out = coqc_capture(vfile, timeout=timeout)
-        self.checker_cmds.append(f"cd /verif/coq && coqc -Q . RC {vfile}")
+        self.checker_cmds.append(f"cd {COQ} && coqc -Q . RC {vfile}")
         info = parse_props_output(vfile, out)
         self.extra.setdefault("theorems", []).extend(info["theorems"])
         if not ok:
